@@ -29,6 +29,7 @@ type sysOp struct {
 	Auth        bool              `json:"auth"`
 	ConnectFail int               `json:"connectfail"`
 	Names       []string          `json:"names"`
+	Ms          int64             `json:"ms"`
 	What        string            `json:"what"`
 	Port        uint32            `json:"port"`
 }
@@ -67,6 +68,7 @@ type stepObs struct {
 	State   interface{} `json:"state"`
 	Policy  interface{} `json:"policy,omitempty"`
 	Note    string      `json:"note,omitempty"`
+	AtMs    int64       `json:"at_ms"`
 }
 
 type sysObs struct {
@@ -96,6 +98,7 @@ type sysRun struct {
 	dead     bool
 	markerN  int
 	suites   *suites
+	t0       time.Time
 }
 
 func (r *sysRun) curStream() *fakeStream { return r.ads.stream(-1) }
@@ -295,6 +298,7 @@ func runSys(raw json.RawMessage) (out interface{}, err error) {
 		SvrAddr: "fake", SvrName: "fake", NDSNotRequired: !c.Cfg.NDS, LDSNotRequired: !c.Cfg.LDS, FetchXDSTimeout: time.Hour,
 	})
 	done := make(chan error, 1)
+	run.t0 = time.Now()
 	go func() {
 		m, err := manager.VerifNewManager(cfg, run.ads, true)
 		run.m = m
@@ -443,6 +447,19 @@ func runSys(raw json.RawMessage) (out interface{}, err error) {
 				s.mu.Unlock()
 				run.errArmed = s
 			}
+		case "backdate":
+			if !run.m.VerifBackdate(rtNames[op.RT], op.Name, time.Duration(op.Ms)*time.Millisecond) {
+				st.Note = "no recorded access time to shift"
+			}
+		case "sleep_until":
+			if d := time.Until(run.t0.Add(time.Duration(op.Ms) * time.Millisecond)); d > 0 {
+				time.Sleep(d)
+			}
+		case "await_sweep":
+			// the cleaner ticks every 30s from its start (just after t0): wait for the op.Ms-th tick plus a margin
+			if d := time.Until(run.t0.Add(time.Duration(op.Ms)*30*time.Second + 1500*time.Millisecond)); d > 0 {
+				time.Sleep(d)
+			}
 		case "register":
 			if run.suites == nil {
 				run.suites = newSuites(run.m)
@@ -465,6 +482,7 @@ func runSys(raw json.RawMessage) (out interface{}, err error) {
 			o.Fatal = fmt.Sprintf("op %d (%s): %v", i, op.Op, err)
 			return o, nil
 		}
+		st.AtMs = time.Since(run.t0).Milliseconds()
 		o.Steps = append(o.Steps, st)
 	}
 	return o, nil
@@ -546,4 +564,37 @@ func dCVal(v interface{}) interface{} {
 		return C("VEp", dResource(x))
 	}
 	return C("VNil")
+}
+
+// engine "sweep" (C19): a batch of scenarios run in parallel, each on its own manager, so that one
+// real 30s tick of the cleaners serves all of them.
+type sweepCase struct {
+	ID        int               `json:"id"`
+	Scenarios []json.RawMessage `json:"scenarios"`
+}
+
+func init() {
+	engines["sweep"] = func(raw json.RawMessage) (interface{}, error) {
+		var c sweepCase
+		if err := json.Unmarshal(raw, &c); err != nil {
+			return nil, err
+		}
+		results := make([]interface{}, len(c.Scenarios))
+		done := make(chan int, len(c.Scenarios))
+		for i := range c.Scenarios {
+			go func(i int) {
+				defer func() { done <- i }()
+				o, err := runSys(c.Scenarios[i])
+				if err != nil {
+					results[i] = map[string]interface{}{"fatal": err.Error()}
+					return
+				}
+				results[i] = o
+			}(i)
+		}
+		for range c.Scenarios {
+			<-done
+		}
+		return map[string]interface{}{"id": c.ID, "results": results}, nil
+	}
 }
